@@ -85,7 +85,11 @@ pub struct Cand {
     /// 3 one shannon below the occupied size; 4 zero fee (block path only)
     #[serde(default)]
     pub cap: u8,
-    /// extra cell dep: 0 none, 1 a live cell, 2 a spent cell, 3 unknown, 4 the oldest immature cellbase output
+    /// extra cell dep: 0 none, 1 a live cell, 2 a spent cell, 3 unknown, 4 the oldest immature cellbase output;
+    /// dep groups: 5 the lock's code comes through a dep group instead of a direct dep, 6 an extra dep
+    /// group one of whose members is an ordinary cell (valid while that cell is unspent), 7 a cell
+    /// without out-point-vector data used as a dep group, 8 a dep group nobody created, 9 the lock's
+    /// code is neither a direct dep nor in the dep group given
     #[serde(default)]
     pub dep: u8,
     /// header dep: 0 none, 1 a main-chain header, 2 a header of a delivered block off the main chain, 3 unknown
@@ -160,6 +164,13 @@ pub fn generate(seed: u64, prop: &str) -> PoolScenario {
         cfg.maturity = *r.pick(&[(0u64, 0u64, 1u64), (0, 1, 2), (1, 0, 1), (0, 3, 4), (2, 1, 3)]);
         cfg.wlock_cells = r.urange(2, 4);
         cfg.genesis_cells.extend((0..6).map(|_| r.range(3_000, 60_000) * SHANNONS));
+        cfg.dep_groups = true;
+        // one run in three: a cycle limit that single transactions reach (one always_success group
+        // costs 537 cycles, the witness lock 1138): exactly at the limit is accepted, one below is not
+        let mut rl = Rng::new(seed ^ 0xC04_C1C);
+        if rl.chance(1, 3) {
+            cfg.max_block_cycles = *rl.pick(&[537u64, 1_073, 1_074, 1_137, 1_138, 1_611, 1_675]);
+        }
     }
     if prop == "C13" {
         // two runs out of five: consensus limits small enough for templates to reach them, so that
@@ -424,7 +435,7 @@ pub fn gen_cand(r: &mut Rng, ntx: usize) -> Cand {
         6 => c.dup = true,
         7 | 8 => c.input = CandIn::CellbaseAt(r.below(2) as u8),
         9 => c.cap = r.range(1, 4) as u8,
-        10 => c.dep = r.range(1, 4) as u8,
+        10 => c.dep = r.range(1, 9) as u8,
         11 => c.hdep = r.range(1, 3) as u8,
         12 => {
             c.input = CandIn::WLock(r.idx(8));
@@ -769,6 +780,8 @@ impl PoolExec {
         let waker = Waker::noop();
         let mut cx = Context::from_waker(waker);
         let rt = self.rt.clone();
+        let mut spins = 0u64;
+        let mut stuck = false;
         let done = rt.enter(|| loop {
             let before = pv::yield_count();
             match self.tasks[i].fut.as_mut().poll(&mut cx) {
@@ -777,13 +790,33 @@ impl PoolExec {
                     if pv::yield_count() > before {
                         break false;
                     }
+                    // the block-assembler loop runs beside the service loop and empties its bounded
+                    // channel all the time: a sender blocked on the full channel gets room again
+                    // (the messages join the task list in their order; see the drain below)
+                    while let Some(fut) = self.pool.next_block_assembler() {
+                        self.tasks.push(Task { name: "block_assembler".into(), fut });
+                    }
                     // waiting for a helper (script VM on the runtime): spin, do not interleave
                     std::thread::sleep(std::time::Duration::from_micros(30));
+                    spins += 1;
+                    if spins > 200_000 {
+                        // a task that waits for something no helper will ever deliver: harness error, not a hang
+                        stuck = true;
+                        break true;
+                    }
                 }
             }
         });
+        if stuck && self.res.harness_error.is_none() {
+            self.res.harness_error = Some(format!("task '{}' makes no progress (waits for an event nobody delivers)", self.tasks[i].name));
+        }
         pv::arm_yield(false);
         self.barrier();
+        // whatever the task sent to the block assembler joins the task list now, whether or not the
+        // channel ran full meanwhile: the order of tasks does not depend on real-time waits
+        while let Some(fut) = self.pool.next_block_assembler() {
+            self.tasks.push(Task { name: "block_assembler".into(), fut });
+        }
         done
     }
 
@@ -838,6 +871,9 @@ impl PoolExec {
                 while !self.poll_task(0, false) {}
                 let t = self.tasks.remove(0);
                 self.ev(&format!("done {}", t.name));
+                if self.res.harness_error.is_some() {
+                    return;
+                }
                 // bookkeeping must be consistent after every completed task, not only at the end
                 self.check_dump(&format!("after_{}", t.name.split(':').next().unwrap_or("")));
                 if self.res.violation.is_some() {
@@ -1470,7 +1506,17 @@ impl PoolExec {
                 }
             }
         };
-        let mut tb = TransactionBuilder::default().cell_dep(self.w.code_dep.clone());
+        let dgs = self.w.dep_group_cells.clone();
+        let group_dep = |op: &OutPoint| packed::CellDep::new_builder().out_point(op.clone()).dep_type(ckb_types::core::DepType::DepGroup).build();
+        if cand.dep >= 5 && dgs.len() < 3 {
+            return None;
+        }
+        let mut tb = TransactionBuilder::default();
+        tb = match cand.dep {
+            5 => tb.cell_dep(group_dep(&dgs[0])),
+            9 => tb.cell_dep(group_dep(&dgs[2])),
+            _ => tb.cell_dep(self.w.code_dep.clone()),
+        };
         tb = tb.input(CellInput::new(first.0.clone(), since));
         if cand.dup {
             tb = tb.input(CellInput::new(first.0.clone(), 0));
@@ -1511,6 +1557,19 @@ impl PoolExec {
                         tb = tb.cell_dep(packed::CellDep::new_builder().out_point(op.clone()).build());
                     }
                 }
+            }
+            6 => {
+                // the group is usable exactly as long as the ordinary cell it lists is unspent (and
+                // the probe itself does not spend it: a cell may be dep and input of one transaction)
+                tb = tb.cell_dep(group_dep(&dgs[1]));
+            }
+            7 => {
+                if let Some((op, _)) = plain.iter().rev().find(|(op, _)| !used(op)) {
+                    tb = tb.cell_dep(group_dep(op));
+                }
+            }
+            8 => {
+                tb = tb.cell_dep(group_dep(&OutPoint::new(ckb_hash::blake2b_256((cand.salt ^ 0xd69).to_le_bytes()).pack(), 2)));
             }
             _ => {}
         }
@@ -1566,11 +1625,36 @@ impl PoolExec {
                 None => return Err("input_not_live".into()),
             }
         }
+        // cell deps resolve to live cells; a dep group stands for the cells its data lists (a vector of
+        // out points: 4-byte little-endian count, then 36 bytes each), all of which must be live too
         let mut deps: Vec<CInfo> = Vec::new();
+        let mut dep_points: BTreeSet<OutPoint> = BTreeSet::new();
         for d in tx.cell_deps().into_iter() {
-            match live.get(&d.out_point()) {
-                Some(c) => deps.push(c.clone()),
+            let c = match live.get(&d.out_point()) {
+                Some(c) => c.clone(),
                 None => return Err("cell_dep_not_live".into()),
+            };
+            let is_group: u8 = d.dep_type().into();
+            if is_group == 1 {
+                let data = &c.cell.data;
+                let n = if data.len() >= 4 { u32::from_le_bytes(data[0..4].try_into().unwrap()) as usize } else { 0 };
+                if n == 0 || data.len() != 4 + 36 * n {
+                    return Err("dep_group_malformed".into());
+                }
+                for k in 0..n {
+                    let raw = &data[4 + 36 * k..4 + 36 * (k + 1)];
+                    let op = OutPoint::new(Byte32::from_slice(&raw[0..32]).unwrap(), u32::from_le_bytes(raw[32..36].try_into().unwrap()));
+                    match live.get(&op) {
+                        Some(m) => {
+                            deps.push(m.clone());
+                            dep_points.insert(op);
+                        }
+                        None => return Err("dep_group_member_not_live".into()),
+                    }
+                }
+            } else {
+                deps.push(c);
+                dep_points.insert(d.out_point());
             }
         }
         for h in tx.header_deps().into_iter() {
@@ -1637,13 +1721,19 @@ impl PoolExec {
         if in_sum < out_sum {
             return Err("outputs_exceed_inputs".into());
         }
-        // scripts: the simulated world has two lock programs
+        // scripts: the simulated world has two lock programs; the program must be among the resolved deps
         for (k, (c, _)) in ins.iter().enumerate() {
             let ch = c.cell.output.lock().code_hash();
             if ch == self.w.code_hash {
+                if !dep_points.contains(&self.w.code_dep.out_point()) {
+                    return Err("script_code_not_among_deps".into());
+                }
                 continue;
             }
             if ch == self.w.wcode_hash {
+                if !dep_points.contains(&self.w.wcode_dep.out_point()) {
+                    return Err("script_code_not_among_deps".into());
+                }
                 // runs the program in witness 0 (the probe has this input at index 0)
                 let prog = tx.witnesses().get(0).map(|w| w.raw_data());
                 if k == 0 && prog.as_ref() == Some(&always_success_bin()) {
@@ -1652,6 +1742,13 @@ impl PoolExec {
                 return Err("lock_script_fails".into());
             }
             return Err("unknown_lock".into());
+        }
+        // ... within the cycle limit
+        let cells: BTreeMap<OutPoint, MCell> = ins.iter().zip(tx.inputs().into_iter()).map(|((c, _), i)| (i.previous_output(), c.cell.clone())).collect();
+        if let Some(cy) = self.w.tx_cycles(tx, &cells) {
+            if cy > self.w.cfg.max_block_cycles {
+                return Err("cycle_limit".into());
+            }
         }
         Ok(())
     }
@@ -1710,6 +1807,12 @@ impl PoolExec {
         let got = self.run_value(self.pool.test_accept_tx(tx.clone()));
         self.ev(&format!("probe_pool {:?} want={:?} got={:?}", cand, want, got.as_ref().map(|c| c.cycles).map_err(|e| e.to_string())));
         self.res.probes.inc(if want.is_ok() { "c04_pool_probe_valid" } else { "c04_pool_probe_invalid" });
+        if want.is_ok() && (cand.dep == 5 || cand.dep == 6) {
+            self.res.probes.inc("c04_pool_probe_valid_through_dep_group");
+        }
+        if want.is_ok() && self.w.cfg.max_block_cycles < 1_000_000 && self.w.tx_cycles(&tx, &live.iter().map(|(k, v)| (k.clone(), v.cell.clone())).collect()) == Some(self.w.cfg.max_block_cycles) {
+            self.res.probes.inc("c04_pool_probe_valid_exactly_at_cycle_limit");
+        }
         if let Err(w) = &want {
             self.res.probes.inc(&format!("c04_pool:{w}"));
         }
@@ -1777,6 +1880,15 @@ impl PoolExec {
         };
         let want = self.c04_eval(&tx, &env, &live);
         commit.push(tx.clone());
+        if want.is_ok() && commit.len() > 1 {
+            // parent and probe share one block: together they must fit the block's cycle limit
+            let cells: BTreeMap<OutPoint, MCell> = live.iter().map(|(k, v)| (k.clone(), v.cell.clone())).chain(pst.cells.iter().map(|(k, v)| (k.clone(), v.clone()))).collect();
+            let sum: u64 = commit.iter().filter_map(|t| self.w.tx_cycles(t, &cells)).sum();
+            if sum > self.w.cfg.max_block_cycles {
+                self.res.probes.inc("c04_probe_not_buildable");
+                return;
+            }
+        }
         // real pass
         let ids: Vec<ProposalShortId> = commit.iter().map(|t| t.proposal_short_id()).collect();
         let mut p = tip;
@@ -1817,6 +1929,12 @@ impl PoolExec {
         let got = self.deliver(&v);
         self.ev(&format!("probe_block {:?} want={:?} got={:?}", cand, want, got));
         self.res.probes.inc(if want.is_ok() { "c04_block_probe_valid" } else { "c04_block_probe_invalid" });
+        if want.is_ok() && (cand.dep == 5 || cand.dep == 6) {
+            self.res.probes.inc("c04_block_probe_valid_through_dep_group");
+        }
+        if want.is_ok() && self.w.cfg.max_block_cycles < 1_000_000 && self.w.tx_cycles(&tx, &live.iter().map(|(k, v)| (k.clone(), v.cell.clone())).collect()) == Some(self.w.cfg.max_block_cycles) {
+            self.res.probes.inc("c04_block_probe_valid_exactly_at_cycle_limit");
+        }
         if let Err(w) = &want {
             self.res.probes.inc(&format!("c04_block:{w}"));
         }
